@@ -22,6 +22,22 @@ Check side  (a) regenerate the skeleton, build, audit;
                 (the bound the property file states for the current source); feasibility tests of one function
                 <= n0 + min(2^n - 1, max_combinations + 1); `itertools` walk = 2^n - 1 non-empty subsets.
                 Each of these yields a concrete replay (lang, seed, switches, max_depth) when it fails;
+            (f) the per-iteration driver (harness/proc_lib.py): the REAL `ProgramProcessor` (get_program, can_transform,
+                transform_program, inject_fault, the schedule) and the REAL loops of hephaestus.py (gen_program,
+                process_cp_transformations, process_ncp_transformations) are run with SCRIPTED transformers — every
+                pattern of "transforms / transforms nothing / mutates in place / returns a copy / raises" up to a small
+                length, plus random ones, over 1–3 iterations — under a step cap and an alarm, so that a loop that
+                does not end is a failing input (not a hang); compared field by field (step counts, counter, saved
+                files, results) with lean/Heph/Model/Processor.lean (`proc.run`; theorems `transform_counter_increases`,
+                `cp_loop_terminates`, `cp_loop_steps`, `gen_program_terminates`, `late_counter_diverges`) and judged
+                directly: the loop ends, transform_program is called exactly as often as the schedule is long, every
+                call advances the counter;
+            (g) the depth cut of gen_new on crafted class tables: classes that reach themselves through array- /
+                function-typed fields (and control shapes) are put into an empty context and `generate_expr` is
+                entered at the depth limit under several seeds in every language, instrumented by plugin_depth:
+                no exception (RecursionError), constructor nesting <= 2*max_depth + 8, every raised-counter
+                recursion of the leaf generator above 2*max_depth cut unless the type is primitive; the guard of the
+                cut is part of the regenerated table (`cutExempt`: exactly `<type argument>.is_primitive()`);
             (e) finding 13 (`TypeParameter.has_bound_of` needs a factory it does not have): the constructed
                 call, and `has_bound_of` against an independent reference on random generic hierarchies.
 """
@@ -507,6 +523,171 @@ def hbo_stream(run, quick):
     run.log("has_bound_of: constructed raises=%d; random agree=%d raises=%d" % (raised, agree, err))
 
 
+# ------------------------------------------------------------------ (f) the per-iteration driver
+PROC_NOTE = ("C18: one iteration (generate / replay, scheduled transformations, fault injection, saving) has to end "
+             "after a bounded amount of work for every behaviour of the transformers")
+
+
+def processor_stream(run, quick, only_case=None):
+    import proc_lib
+    real = proc_lib.Real()
+    try:
+        if only_case is not None:
+            cases = [only_case]
+        else:
+            cases = proc_lib.exhaustive_cases() + proc_lib.random_cases(run.rng, 150 if quick else 5000)
+        t0 = time.time()
+        direct, diffs = proc_lib.stream(run, real, cases, "driver", PROC_NOTE)
+        run.cov["processor_cases_total"] = len(cases)
+        run.cov["processor_wall_s"] = round(time.time() - t0, 1)
+    finally:
+        real.close()
+    run.log("processor: %d cases, %d direct failures, %d model differences" % (len(cases), direct, len(diffs)))
+    return direct, diffs
+
+
+# ------------------------------------------------------------------ (g) crafted recursive class tables
+REC_SHAPES = {
+    # (class, [(field, type)]) ; type: ("cls", name) | ("arr", t) | ("fun", [params], ret) | ("int",)
+    "array-self": [("Node", [("children", ("arr", ("cls", "Node")))])],
+    "array-array-self": [("Node", [("children", ("arr", ("arr", ("cls", "Node"))))])],
+    "function0-self": [("Node", [("mk", ("fun", [], ("cls", "Node")))])],
+    "function1-self": [("Node", [("mk", ("fun", [("int",)], ("cls", "Node")))])],
+    "mutual-through-array": [("A", [("b", ("arr", ("cls", "B")))]), ("B", [("a", ("cls", "A"))])],
+    "mutual-through-function": [("A", [("b", ("fun", [], ("cls", "B")))]), ("B", [("a", ("arr", ("cls", "A")))])],
+    "mutual-plain": [("A", [("b", ("cls", "B"))]), ("B", [("a", ("cls", "A")), ("n", ("int",))])],
+    "direct-self": [("Node", [("next", ("cls", "Node")), ("n", ("int",))])],
+}
+
+
+def new_nesting(node):
+    from src.ir import ast
+    best, stack = 0, [(node, 0)]
+    while stack:
+        n, d = stack.pop()
+        if isinstance(n, ast.New):
+            d += 1
+        best = max(best, d)
+        ch = getattr(n, "children", None)
+        if ch is not None:
+            for c in ch():
+                stack.append((c, d))
+    return best
+
+
+def rec_one(lang, shape, seed, m, depth, ol):
+    """one request: the class table `shape` in an empty context, generate_expr(first class) entered with
+    self.depth = depth, only_leaves = ol, max_depth = m"""
+    import traceback
+    from src import utils
+    from src.generators.generator import Generator
+    from src.ir import ast
+    from src.ir.context import Context
+    import plugin_depth
+    pipeline.configure(lang, (0, 0, 0, 0), m)
+    utils.random.r.seed(seed)
+    utils.random.reset_word_pool()
+    gen = Generator(language=lang, options={})
+    gen.context = Context()
+    bt = gen.bt_factory
+    classes = {name: ast.ClassDeclaration(name, superclasses=[], class_type=ast.ClassDeclaration.REGULAR, fields=[],
+                                          functions=[], is_final=True, type_parameters=[])
+               for name, _ in REC_SHAPES[shape]}
+
+    def ty(e):
+        if e[0] == "cls":
+            return classes[e[1]].get_type()
+        if e[0] == "arr":
+            return bt.get_array_type().new([ty(e[1])])
+        if e[0] == "fun":
+            return bt.get_function_type(len(e[1])).new([ty(x) for x in e[1]] + [ty(e[2])])
+        return bt.get_integer_type()
+    for name, fields in REC_SHAPES[shape]:
+        for fname, te in fields:
+            classes[name].fields.append(ast.FieldDeclaration(fname, ty(te)))
+        gen.context.add_class(ast.GLOBAL_NAMESPACE, name, classes[name])
+    gen.namespace = ast.GLOBAL_NAMESPACE + ("main",)
+    gen.depth = depth
+    st = {}
+    plugin_depth.install(st, {})
+    r = {}
+    try:
+        try:
+            e = gen.generate_expr(classes[REC_SHAPES[shape][0][0]].get_type(), only_leaves=ol, exclude_var=True)
+            r["nesting"] = new_nesting(e)
+        except RecursionError:
+            r["exception"] = "RecursionError"
+        except Exception as ex:   # noqa: BLE001 — the answer of the real code, as data
+            r["exception"] = type(ex).__name__
+            r["message"] = str(ex)[:300]
+            r["traceback"] = traceback.format_exc()[-1500:]
+        pl = plugin_depth.collect(st)
+    finally:
+        plugin_depth.uninstall(st)
+    r.update(uncut=pl["uncut"], uncut_count=pl["uncut_count"], wdepth=pl["max_wdepth"], calls=pl["calls"],
+             mismatch_counts=pl["mismatch_counts"], mismatches=pl["mismatches"])
+    return r
+
+
+def rec_judge(run, rq, r):
+    """direct judges of one crafted request; returns (failing, skeleton mismatch or None)"""
+    lang, shape, seed, m, depth, ol = rq
+    where = {"replay": "recursive-classes", "lang": lang, "shape": shape, "class_table": REC_SHAPES[shape], "rng_seed": seed,
+             "max_depth": m, "entry_depth": depth, "only_leaves": ol}
+    failing = 0
+    if "exception" in r:
+        failing += 1
+        report(run, dict(where, kind="failing-input", what="generate_expr raises on a class that reaches itself through "
+                         "its fields", exception=r["exception"], message=r.get("message"), traceback=r.get("traceback")),
+               "generator:crafted-classes:" + r["exception"], cap=1)
+    if r.get("nesting", 0) > spec_bound(m) or r["wdepth"] > spec_bound(m):
+        failing += 1
+        report(run, dict(where, kind="failing-input", what="nesting of constructor calls / raised-counter calls exceeds "
+                         "2*max_depth+8", constructor_nesting=r.get("nesting"), calltree=r["wdepth"], bound=spec_bound(m)),
+               "generator:nesting-above-bound:crafted-classes", cap=1)
+    if r["uncut_count"]:
+        failing += 1
+        report(run, dict(where, kind="failing-input", what="gen_new recurses under a raised counter above 2*max_depth into "
+                         "a non-primitive field type without cutting to the bottom constant", calls=r["uncut"],
+                         count=r["uncut_count"]), "generator:leaf-generator-recursion-not-cut:crafted-classes", cap=1)
+    return failing, (r["mismatches"][0] if r["mismatches"] else None)
+
+
+def rec_requests(run, quick):
+    rqs = []
+    nseeds = 3 if quick else 40
+    for li, lang in enumerate(pipeline.LANGS):
+        for si, shape in enumerate(REC_SHAPES):
+            for k in range(nseeds):
+                m = 2 if quick or k % 2 == 0 else 3
+                depth, ol = [(m, True), (m, False), (0, False)][(k + li + si) % 3] if k else (m, True)
+                rqs.append((lang, shape, run.rng.randrange(1, 1 << 30), m, depth, ol))
+    return rqs
+
+
+def rec_stream(run, quick, acc, only=None):
+    rqs = [only] if only is not None else rec_requests(run, quick)
+    t0 = time.time()
+    done = 0
+    for rq in rqs:
+        if only is None and time.time() - t0 > (25 if quick else 600):
+            break
+        r = rec_one(*rq)
+        done += 1
+        run.count({"crafted": list(rq)}, nontrivial=r["calls"] > 1)
+        run.tally("crafted_class_tables", rq[1])
+        run.tally("crafted_outcome", r.get("exception", "completed"))
+        run.cov["crafted_generate_expr_calls"] = run.cov.get("crafted_generate_expr_calls", 0) + r["calls"]
+        run.cov["crafted_max_constructor_nesting"] = max(run.cov.get("crafted_max_constructor_nesting", 0), r.get("nesting", 0))
+        f, mm = rec_judge(run, rq, r)
+        acc.failing += f
+        if mm is not None:
+            acc.mismatch.append(({"crafted": list(rq)}, mm))
+    run.cov["crafted_requests_done"] = done
+    run.cov["crafted_wall_s"] = round(time.time() - t0, 1)
+    run.log("crafted recursive class tables: %d of %d requests, %s" % (done, len(rqs), run.cov.get("crafted_outcome")))
+
+
 # ------------------------------------------------------------------ the check
 def preload(same_depth):
     """import what the workers need before forking (copy-on-write instead of 14 imports)"""
@@ -577,8 +758,13 @@ def check(run):
     # corpus + structured streams first
     hbo_stream(run, quick)
     walk_diffs = walk_stream(run)
-    # the pipeline
     acc = Acc()
+    # (f) the per-iteration driver, (g) crafted class tables
+    pdirect, pdiffs = processor_stream(run, quick)
+    acc.failing += pdirect
+    preload(b[0]["sameDepth"])
+    rec_stream(run, quick, acc)
+    # the pipeline
     specs = make_specs(run, quick)
     # absolute deadline (the build before it may take 20 s or, after a change of the table, 2 min)
     budget = max(30, run.t0 + (145 if quick else 1620) - time.time())
@@ -613,6 +799,9 @@ def check(run):
         broken.append(("erasure tests vs Model erasureTests", [{"spec": k, "summary": s, "max_combinations": mc, "observed": o,
                                                                "model": mo} for k, s, mc, o, mo in acc.erasure_diff[:3]],
                        "erasure:model-differs"))
+    if pdiffs:
+        broken.append(("ProgramProcessor / loops of hephaestus.py vs Model/Processor.lean (proc.run)", pdiffs[:3],
+                       "processor:model-differs"))
     if walk_diffs:
         broken.append(("itertools power-set walk vs powerWalk", [{"request": d[1], "impl": d[2], "model": d[3]} for d in walk_diffs[:2]],
                        "walk:model-differs"))
@@ -657,6 +846,17 @@ def replay(run, rp):
             if v and not acc.failing:
                 run.violation({"kind": "broken-correspondence", "correspondence": k, "detail": v[:3], "replay": "pipeline",
                                "spec": spec_key(spec)}, signature="replay:" + k, no_input=True)
+    elif kind == "processor":
+        direct, diffs = processor_stream(run, True, only_case=rp["case"])
+        if diffs and not direct:
+            run.violation({"kind": "broken-correspondence", "correspondence": "processor", "detail": diffs[:1],
+                           "replay": "processor", "case": rp["case"]}, signature="replay:processor", no_input=True)
+    elif kind == "recursive-classes":
+        preload(bound_answers(run)[0]["sameDepth"])
+        acc = Acc()
+        rec_stream(run, True, acc, only=(rp["lang"], rp["shape"], rp["rng_seed"], rp["max_depth"], rp["entry_depth"],
+                                         rp["only_leaves"]))
+        run.log("replayed", "failing" if acc.failing else "holds")
     elif kind in ("has_bound_of-constructed", "has_bound_of-random"):
         hbo_stream(run, True)
     else:
